@@ -1383,3 +1383,6 @@ S("seed-C16-h", ["C16"], "seeded/C16-h/patch.diff", [("C16", "C16-R7", "position
 TP("t-string-position-default", ALL_PROPS, "selftest/patches/t-string-position-default.diff", note="the same helper handing its default to to_integer (repaired C16-h)")
 S("seed-C18-h", ["C18"], "seeded/C18-h/patch.diff", [("C18", "C18-R19", "_global_parseint")], note="parseInt digit table looked up with ch.lower(): U+212A KELVIN SIGN becomes the digit k")
 TP("t-parseint-digit-table", ALL_PROPS, "selftest/patches/t-parseint-digit-table.diff", note="the same table behind an isascii() test (repaired C18-h)")
+M("c07-location-from-advanced-ip", ["C07"], VM,
+  "            for ip in range(frame.ip - 1, -1, -1):\n", "            for ip in range(frame.ip, -1, -1):\n",
+  [("C07", "C07-R13", "walk-from")], note="location lookup from the already advanced instruction pointer")
